@@ -125,3 +125,24 @@ def _():
 def _():
     return [(MM, "        self.power = sum (s.power for s in self.sources)\n",
              "        if not hasattr (self, 'power'):\n            self.power = sum (s.power for s in self.sources)\n")]
+
+
+@planted('attach_lines_sorted_by_id', ['H5', 'H6', 'H2', 'H3', 'H4', 'H7'], 'needs the id() seam (or ASLR between real processes)')
+def _():
+    return [(MM, "            for w in sorted (geo_all, key = lambda g: g.n):\n", "            for w in sorted (geo_all, key = id):\n")]
+
+
+@planted('report_header_mentions_user', ['H5', 'H6', 'H1', 'H2', 'H3', 'H4', 'H7'], 'needs process-environment perturbation')
+def _():
+    return [(MM, "import sys\nimport copy\n", "import sys\nimport os\nimport copy\n"),
+            (MM, "        r.append (' ' * 35 + 'MININEC')\n",
+             "        r.append (' ' * 35 + 'MININEC')\n        if os.environ.get ('USER', 'root') != 'root':\n"
+             "            r.append (' ' * 30 + 'RUN BY ' + os.environ ['USER'])\n")]
+
+
+@planted('option_file_records_cwd', ['H5', 'H6'], 'needs cwd perturbation')
+def _():
+    return [(MM, "import sys\nimport copy\n", "import sys\nimport os\nimport copy\n"),
+            (MM, "            f.write (m.as_cmdline (azi = azimuth, zen = zenith))\n",
+             "            f.write (m.as_cmdline (azi = azimuth, zen = zenith))\n"
+             "            f.write ('# written in %s\\n' % os.getcwd ())\n")]
